@@ -50,6 +50,8 @@ impl Metadata {
             .duration_since(std::time::UNIX_EPOCH)
             .unwrap_or_else(|_| std::time::Duration::from_secs(0))
             .as_secs();
+        #[cfg(feoxdb_verif)]
+        let now = crate::verif::now_secs().unwrap_or(now);
 
         let mut metadata = Self {
             signature: *FEOX_SIGNATURE,
@@ -110,6 +112,10 @@ impl Metadata {
             .duration_since(std::time::UNIX_EPOCH)
             .unwrap_or_else(|_| std::time::Duration::from_secs(0))
             .as_secs();
+        #[cfg(feoxdb_verif)]
+        if let Some(now) = crate::verif::now_secs() {
+            self.last_update_time = now;
+        }
         self.refresh_checksum();
     }
 
